@@ -46,241 +46,247 @@ def run(index, rep, tier):
     enc = index.function(TREE + ".encode_bipartitions")
 
     # ---- R01.1
-    nshift = 0
-    for fi in list(index.functions.values()):
-        for n in walk_no_nested(fi.node):
-            amt = None
-            if isinstance(n, ast.BinOp) and isinstance(n.op, ast.LShift):
-                amt = n.right
-            elif isinstance(n, ast.AugAssign) and isinstance(n.op, ast.LShift):
-                amt = n.value
-            elif isinstance(n, ast.BinOp) and isinstance(n.op, ast.Pow) and const_value(n.left) == 2:
-                amt = n.right
-            elif isinstance(n, ast.Call) and call_name(n) == "pow" and n.args and const_value(n.args[0]) == 2 and isinstance(n.func, ast.Name):
-                amt = n.args[1] if len(n.args) > 1 else None
-            if amt is None:
-                continue
-            if isinstance(amt, ast.Constant):
-                continue
-            nshift += 1
-            if fi.qualname in SHIFT_TABLE:
-                src = norm(_resolve_local(fi.node, amt))
-                if fi.qualname == TNS + ".taxon_bitmask":
-                    ok = src == "self._taxon_accession_index_map[taxon]"
-                elif fi.qualname == TNS + ".all_taxa_bitmask":
-                    ok = src == "self._current_accession_count"
-                else:
-                    ok = True
-                rep.check(ok, "R01.1", fi.qualname, "shift amount source: " + src, fn_where(fi, n),
-                          "%s shifts by `%s` (%s)" % (fi.name, src, SHIFT_TABLE[fi.qualname]),
-                          "%s computes a taxon bit from `%s` instead of the accession index: bits change when members are removed, sorted or reversed" % (fi.qualname, src))
-                continue
-            # a new power-of-two site: is the exponent positional (enumerate / index / len / range) in taxon-handling code?
-            src = _resolve_local(fi.node, amt)
-            txt = norm(src)
-            loopvars = set()
-            for f in walk_no_nested(fi.node):
-                if isinstance(f, (ast.For, ast.comprehension)) and isinstance(f.iter, ast.Call) and call_name(f.iter) in ("enumerate", "range"):
-                    loopvars |= names_in(f.target)
-            positional = (names_in(amt) & loopvars) or any(k in txt for k in (".index(", "len(", "enumerate(", "range("))
-            taxonish = any("tax" in x.lower() or "namespace" in x.lower() for x in names_in(fi.node) | {a for a, b, c in attr_reads(fi.node)})
-            bad = bool(positional) and taxonish
-            rep.check(not bad, "R01.1", fi.qualname, "positional power of two: " + norm(n)[:80], fn_where(fi, n),
-                      "%s: power-of-two `%s` is not a positional taxon bit" % (fi.qualname, norm(n)[:60]),
-                      "%s builds a bit from a list position (`%s`) in taxon-handling code: a second taxon -> bit assignment that disagrees with the namespace's accession index after removals/sorting" % (fi.qualname, norm(n)[:80]))
-    rep.floor("R01.1", "variable power-of-two sites", 2, nshift)
-    # leaf mask in encode_bipartitions
-    stores = [w for w in writes_in(enc.node) if w.attr == "_leafset_bitmask" and w.kind == "store"]
-    if len(stores) != 1 or not isinstance(stores[0].value, ast.Name):
-        raise AnalysisError("R01.2: encode_bipartitions leafset store not recognised")
-    L = stores[0].value.id
-    defs = _assign_defs(enc.node, L)
-    kinds = []
-    pm = parent_map(enc.node)
-    for d in defs:
-        if isinstance(d, ast.Assign) and const_value(d.value, "x") == 0:
-            kinds.append(("zero", d))
-        elif isinstance(d, ast.Assign) and isinstance(d.value, ast.Call) and call_name(d.value) == "taxon_bitmask":
-            kinds.append(("leaf", d))
-        elif isinstance(d, ast.AugAssign) and isinstance(d.op, ast.BitOr):
-            kinds.append(("or", d))
-        elif isinstance(d, ast.Assign) and isinstance(d.value, ast.BinOp) and isinstance(d.value.op, ast.BitOr) and norm(d.value.left) == L:
-            kinds.append(("or", d))
-        else:
-            kinds.append(("other", d))
-    for k, d in kinds:
-        if k == "leaf":
-            recv = _resolve_local(enc.node, d.value.func.value)
-            arg = _resolve_local(enc.node, d.value.args[0]) if d.value.args else None
-            ok = norm(recv) in ("self._taxon_namespace", "self.taxon_namespace") and arg is not None and norm(arg).endswith("_head_node.taxon") or (arg is not None and norm(arg) == "head_node.taxon")
-            rep.check(bool(ok), "R01.1", enc.qualname, "leaf mask source: " + norm(d.value), fn_where(enc, d),
-                      "encode_bipartitions: leaf mask = %s.taxon_bitmask(%s)" % (norm(recv), norm(arg) if arg is not None else None),
-                      "encode_bipartitions takes a leaf's mask from `%s` rather than from its own namespace's taxon_bitmask(leaf taxon)" % norm(d.value))
-        elif k == "or":
-            rhs = d.value if isinstance(d, ast.AugAssign) else d.value.right
-            ok_rhs = norm(rhs).endswith("bipartition._leafset_bitmask") or norm(rhs).endswith(".leafset_bitmask")
-            loop = pm.get(d)
-            while loop is not None and not isinstance(loop, ast.For):
-                loop = pm.get(loop)
-            it = _resolve_local(enc.node, loop.iter) if loop is not None else None
-            ok_iter = it is not None and (norm(it).endswith("._child_nodes") or (isinstance(it, ast.Call) and call_name(it) in ("child_nodes", "child_node_iter")))
-            ok_var = loop is not None and names_in(rhs) & names_in(loop.target)
-            rep.check(bool(ok_rhs and ok_iter and ok_var), "R01.2", enc.qualname, "OR accumulation: %s over %s" % (norm(d), norm(it) if it is not None else None), fn_where(enc, d),
-                      "internal edge mask |= child's leafset mask for every child in %s" % (norm(it) if it is not None else None),
-                      "the internal-edge leafset mask is not the OR of ALL children's leafset masks (`%s` iterating `%s`): taxa below the edge are dropped from or added to its bitmask" % (norm(d), norm(it) if it is not None else None))
-        elif k == "other":
-            rep.check(False, "R01.2", enc.qualname, "leafset definition: " + norm_stmt(d), fn_where(enc, d), "unrecognised definition of the leafset mask",
-                      "the stored leafset mask has a definition `%s` that is neither 0, the leaf's taxon bit nor an OR over the children" % norm_stmt(d))
-        else:
-            rep.ob("R01.2", fn_where(enc, d), "leafset mask starts from 0 for each edge", True)
-    rep.floor("R01.2", "definitions of the leafset mask", 3, len(kinds))
-    # the zero must be re-established per edge: its definition sits inside the edge loop
-    zero = [d for k, d in kinds if k == "zero"]
-    loops = [f for f in walk_no_nested(enc.node) if isinstance(f, ast.For) and "postorder_edge_iter" in norm(f.iter)]
-    ok = bool(zero) and bool(loops) and all(any(z is x for x in ast.walk(loops[0])) for z in zero)
-    rep.check(ok, "R01.2", enc.qualname, "per-edge reset of the accumulator", fn_where(enc), "the accumulator is reset to 0 inside the post-order edge loop",
-              "the leafset accumulator is not reset per edge inside the post-order loop: masks of earlier edges leak into later ones")
-    rep.check(bool(loops), "R01.2", enc.qualname, "post-order traversal", fn_where(enc), "edges are visited children-before-parents (postorder_edge_iter)",
-              "encode_bipartitions no longer visits edges in post-order: a parent's mask is computed before its children's")
+    with rep.section("R01.1"):
+        nshift = 0
+        for fi in list(index.functions.values()):
+            for n in walk_no_nested(fi.node):
+                amt = None
+                if isinstance(n, ast.BinOp) and isinstance(n.op, ast.LShift):
+                    amt = n.right
+                elif isinstance(n, ast.AugAssign) and isinstance(n.op, ast.LShift):
+                    amt = n.value
+                elif isinstance(n, ast.BinOp) and isinstance(n.op, ast.Pow) and const_value(n.left) == 2:
+                    amt = n.right
+                elif isinstance(n, ast.Call) and call_name(n) == "pow" and n.args and const_value(n.args[0]) == 2 and isinstance(n.func, ast.Name):
+                    amt = n.args[1] if len(n.args) > 1 else None
+                if amt is None:
+                    continue
+                if isinstance(amt, ast.Constant):
+                    continue
+                nshift += 1
+                if fi.qualname in SHIFT_TABLE:
+                    src = norm(_resolve_local(fi.node, amt))
+                    if fi.qualname == TNS + ".taxon_bitmask":
+                        ok = src == "self._taxon_accession_index_map[taxon]"
+                    elif fi.qualname == TNS + ".all_taxa_bitmask":
+                        ok = src == "self._current_accession_count"
+                    else:
+                        ok = True
+                    rep.check(ok, "R01.1", fi.qualname, "shift amount source: " + src, fn_where(fi, n),
+                              "%s shifts by `%s` (%s)" % (fi.name, src, SHIFT_TABLE[fi.qualname]),
+                              "%s computes a taxon bit from `%s` instead of the accession index: bits change when members are removed, sorted or reversed" % (fi.qualname, src))
+                    continue
+                # a new power-of-two site: is the exponent positional (enumerate / index / len / range) in taxon-handling code?
+                src = _resolve_local(fi.node, amt)
+                txt = norm(src)
+                loopvars = set()
+                for f in walk_no_nested(fi.node):
+                    if isinstance(f, (ast.For, ast.comprehension)) and isinstance(f.iter, ast.Call) and call_name(f.iter) in ("enumerate", "range"):
+                        loopvars |= names_in(f.target)
+                positional = (names_in(amt) & loopvars) or any(k in txt for k in (".index(", "len(", "enumerate(", "range("))
+                taxonish = any("tax" in x.lower() or "namespace" in x.lower() for x in names_in(fi.node) | {a for a, b, c in attr_reads(fi.node)})
+                bad = bool(positional) and taxonish
+                rep.check(not bad, "R01.1", fi.qualname, "positional power of two: " + norm(n)[:80], fn_where(fi, n),
+                          "%s: power-of-two `%s` is not a positional taxon bit" % (fi.qualname, norm(n)[:60]),
+                          "%s builds a bit from a list position (`%s`) in taxon-handling code: a second taxon -> bit assignment that disagrees with the namespace's accession index after removals/sorting" % (fi.qualname, norm(n)[:80]))
+        rep.floor("R01.1", "variable power-of-two sites", 2, nshift)
+        # leaf mask in encode_bipartitions
+        stores = [w for w in writes_in(enc.node) if w.attr == "_leafset_bitmask" and w.kind == "store"]
+        if len(stores) != 1 or not isinstance(stores[0].value, ast.Name):
+            raise AnalysisError("R01.2: encode_bipartitions leafset store not recognised")
+        L = stores[0].value.id
+        defs = _assign_defs(enc.node, L)
+        kinds = []
+        pm = parent_map(enc.node)
+        for d in defs:
+            if isinstance(d, ast.Assign) and const_value(d.value, "x") == 0:
+                kinds.append(("zero", d))
+            elif isinstance(d, ast.Assign) and isinstance(d.value, ast.Call) and call_name(d.value) == "taxon_bitmask":
+                kinds.append(("leaf", d))
+            elif isinstance(d, ast.AugAssign) and isinstance(d.op, ast.BitOr):
+                kinds.append(("or", d))
+            elif isinstance(d, ast.Assign) and isinstance(d.value, ast.BinOp) and isinstance(d.value.op, ast.BitOr) and norm(d.value.left) == L:
+                kinds.append(("or", d))
+            else:
+                kinds.append(("other", d))
+        for k, d in kinds:
+            if k == "leaf":
+                recv = _resolve_local(enc.node, d.value.func.value)
+                arg = _resolve_local(enc.node, d.value.args[0]) if d.value.args else None
+                ok = norm(recv) in ("self._taxon_namespace", "self.taxon_namespace") and arg is not None and norm(arg).endswith("_head_node.taxon") or (arg is not None and norm(arg) == "head_node.taxon")
+                rep.check(bool(ok), "R01.1", enc.qualname, "leaf mask source: " + norm(d.value), fn_where(enc, d),
+                          "encode_bipartitions: leaf mask = %s.taxon_bitmask(%s)" % (norm(recv), norm(arg) if arg is not None else None),
+                          "encode_bipartitions takes a leaf's mask from `%s` rather than from its own namespace's taxon_bitmask(leaf taxon)" % norm(d.value))
+            elif k == "or":
+                rhs = d.value if isinstance(d, ast.AugAssign) else d.value.right
+                ok_rhs = norm(rhs).endswith("bipartition._leafset_bitmask") or norm(rhs).endswith(".leafset_bitmask")
+                loop = pm.get(d)
+                while loop is not None and not isinstance(loop, ast.For):
+                    loop = pm.get(loop)
+                it = _resolve_local(enc.node, loop.iter) if loop is not None else None
+                ok_iter = it is not None and (norm(it).endswith("._child_nodes") or (isinstance(it, ast.Call) and call_name(it) in ("child_nodes", "child_node_iter")))
+                ok_var = loop is not None and names_in(rhs) & names_in(loop.target)
+                rep.check(bool(ok_rhs and ok_iter and ok_var), "R01.2", enc.qualname, "OR accumulation: %s over %s" % (norm(d), norm(it) if it is not None else None), fn_where(enc, d),
+                          "internal edge mask |= child's leafset mask for every child in %s" % (norm(it) if it is not None else None),
+                          "the internal-edge leafset mask is not the OR of ALL children's leafset masks (`%s` iterating `%s`): taxa below the edge are dropped from or added to its bitmask" % (norm(d), norm(it) if it is not None else None))
+            elif k == "other":
+                rep.check(False, "R01.2", enc.qualname, "leafset definition: " + norm_stmt(d), fn_where(enc, d), "unrecognised definition of the leafset mask",
+                          "the stored leafset mask has a definition `%s` that is neither 0, the leaf's taxon bit nor an OR over the children" % norm_stmt(d))
+            else:
+                rep.ob("R01.2", fn_where(enc, d), "leafset mask starts from 0 for each edge", True)
+        rep.floor("R01.2", "definitions of the leafset mask", 3, len(kinds))
+        # the zero must be re-established per edge: its definition sits inside the edge loop
+        zero = [d for k, d in kinds if k == "zero"]
+        loops = [f for f in walk_no_nested(enc.node) if isinstance(f, ast.For) and "postorder_edge_iter" in norm(f.iter)]
+        ok = bool(zero) and bool(loops) and all(any(z is x for x in ast.walk(loops[0])) for z in zero)
+        rep.check(ok, "R01.2", enc.qualname, "per-edge reset of the accumulator", fn_where(enc), "the accumulator is reset to 0 inside the post-order edge loop",
+                  "the leafset accumulator is not reset per edge inside the post-order loop: masks of earlier edges leak into later ones")
+        rep.check(bool(loops), "R01.2", enc.qualname, "post-order traversal", fn_where(enc), "edges are visited children-before-parents (postorder_edge_iter)",
+                  "encode_bipartitions no longer visits edges in post-order: a parent's mask is computed before its children's")
 
     # ---- R01.3
-    nlrb = 0
-    for fi in list(index.functions.values()):
-        for w in writes_in(fi.node):
-            if w.attr != "_lowest_relevant_bit" or w.kind != "store":
+    with rep.section("R01.3"):
+        nlrb = 0
+        for fi in list(index.functions.values()):
+            for w in writes_in(fi.node):
+                if w.attr != "_lowest_relevant_bit" or w.kind != "store":
+                    continue
+                nlrb += 1
+                v = w.value
+                ok = is_none(v) or (isinstance(v, ast.Name) and v.id in fi.all_params) or \
+                    (isinstance(v, ast.Call) and call_name(v) == "least_significant_set_bit" and v.args and norm(v.args[0]) == "self._tree_leafset_bitmask")
+                rep.check(ok, "R01.3", fi.qualname, norm_stmt(w.stmt), fn_where(fi, w.stmt), "_lowest_relevant_bit := %s" % norm(v),
+                          "%s sets the normalisation bit to `%s`: it must be the least significant set bit of the TREE's leafset mask (lowest taxon bit present on the tree), not a constant or a namespace-wide bit" % (fi.qualname, norm(v)))
+        rep.floor("R01.3", "assignments of _lowest_relevant_bit", 3, nlrb)
+        csb = index.function(BIP + ".compile_split_bitmask")
+        nb = [c for c in calls_in(csb.node) if call_name(c) == "normalize_bitmask"]
+        if len(nb) != 1:
+            raise AnalysisError("R01.3: normalize_bitmask call in compile_split_bitmask not recognised")
+        args = {k.arg: norm(k.value) for k in nb[0].keywords}
+        for i, a in enumerate(nb[0].args):
+            args[["bitmask", "fill_bitmask", "lowest_relevant_bit"][i]] = norm(a)
+        want = {"bitmask": "self._leafset_bitmask", "fill_bitmask": "self._tree_leafset_bitmask", "lowest_relevant_bit": "self._lowest_relevant_bit"}
+        rep.check(args == want, "R01.3", csb.qualname, "normalize_bitmask(%s)" % args, fn_where(csb, nb[0]), "unrooted split = normalize(leafset, fill=tree leafset, lowest bit of tree leafset)",
+                  "compile_split_bitmask normalises with %s instead of %s" % (args, want))
+        # rooted branch keeps the leafset
+        rooted = [n for n in walk_no_nested(csb.node) if isinstance(n, ast.If) and norm(n.test) == "self._is_rooted"]
+        ok = bool(rooted) and any(isinstance(s, ast.Assign) and norm(s.targets[0]) == "self._split_bitmask" and norm(s.value) == "self._leafset_bitmask" for s in rooted[0].body) \
+            and any(x is nb[0] for s in rooted[0].orelse for x in ast.walk(s))
+        rep.check(ok, "R01.3", csb.qualname, "rooted: split = leafset; unrooted: normalised", fn_where(csb), "rooted trees keep the leafset mask as split mask, unrooted ones normalise",
+                  "compile_split_bitmask no longer sets split = leafset for rooted trees and the normalised mask for unrooted ones")
+        for name in ("_compile_mutable_bipartition_for_edge", "_compile_immutable_bipartition_for_edge"):
+            fi = index.function(TREE + "." + name)
+            cs = [c for c in calls_in(fi.node) if call_name(c) == "compile_split_bitmask"]
+            v = get_kwarg(cs[0], "tree_leafset_bitmask") if cs else None
+            ok = v is not None and norm(v) in ("self.seed_node.edge.bipartition._leafset_bitmask", "self.seed_node.edge.bipartition.leafset_bitmask",
+                                               "self._seed_node.edge.bipartition._leafset_bitmask", "self.seed_node._edge.bipartition._leafset_bitmask")
+            rep.check(ok, "R01.3", fi.qualname, "tree_leafset_bitmask=%s" % (norm(v) if v is not None else None), fn_where(fi),
+                      "%s passes the seed edge's leafset mask (the tree's own leaf set)" % name,
+                      "%s passes `%s` as the tree leafset mask: normalisation must be relative to the tree's own leaf set (the seed edge's leafset mask); the namespace-wide mask differs whenever the namespace is larger than the tree or had taxa removed"
+                      % (fi.qualname, norm(v) if v is not None else None))
+        # other normalize_bitmask call sites
+        for fi in list(index.functions.values()):
+            if fi.qualname == csb.qualname:
                 continue
-            nlrb += 1
-            v = w.value
-            ok = is_none(v) or (isinstance(v, ast.Name) and v.id in fi.all_params) or \
-                (isinstance(v, ast.Call) and call_name(v) == "least_significant_set_bit" and v.args and norm(v.args[0]) == "self._tree_leafset_bitmask")
-            rep.check(ok, "R01.3", fi.qualname, norm_stmt(w.stmt), fn_where(fi, w.stmt), "_lowest_relevant_bit := %s" % norm(v),
-                      "%s sets the normalisation bit to `%s`: it must be the least significant set bit of the TREE's leafset mask (lowest taxon bit present on the tree), not a constant or a namespace-wide bit" % (fi.qualname, norm(v)))
-    rep.floor("R01.3", "assignments of _lowest_relevant_bit", 3, nlrb)
-    csb = index.function(BIP + ".compile_split_bitmask")
-    nb = [c for c in calls_in(csb.node) if call_name(c) == "normalize_bitmask"]
-    if len(nb) != 1:
-        raise AnalysisError("R01.3: normalize_bitmask call in compile_split_bitmask not recognised")
-    args = {k.arg: norm(k.value) for k in nb[0].keywords}
-    for i, a in enumerate(nb[0].args):
-        args[["bitmask", "fill_bitmask", "lowest_relevant_bit"][i]] = norm(a)
-    want = {"bitmask": "self._leafset_bitmask", "fill_bitmask": "self._tree_leafset_bitmask", "lowest_relevant_bit": "self._lowest_relevant_bit"}
-    rep.check(args == want, "R01.3", csb.qualname, "normalize_bitmask(%s)" % args, fn_where(csb, nb[0]), "unrooted split = normalize(leafset, fill=tree leafset, lowest bit of tree leafset)",
-              "compile_split_bitmask normalises with %s instead of %s" % (args, want))
-    # rooted branch keeps the leafset
-    rooted = [n for n in walk_no_nested(csb.node) if isinstance(n, ast.If) and norm(n.test) == "self._is_rooted"]
-    ok = bool(rooted) and any(isinstance(s, ast.Assign) and norm(s.targets[0]) == "self._split_bitmask" and norm(s.value) == "self._leafset_bitmask" for s in rooted[0].body) \
-        and any(x is nb[0] for s in rooted[0].orelse for x in ast.walk(s))
-    rep.check(ok, "R01.3", csb.qualname, "rooted: split = leafset; unrooted: normalised", fn_where(csb), "rooted trees keep the leafset mask as split mask, unrooted ones normalise",
-              "compile_split_bitmask no longer sets split = leafset for rooted trees and the normalised mask for unrooted ones")
-    for name in ("_compile_mutable_bipartition_for_edge", "_compile_immutable_bipartition_for_edge"):
-        fi = index.function(TREE + "." + name)
-        cs = [c for c in calls_in(fi.node) if call_name(c) == "compile_split_bitmask"]
-        v = get_kwarg(cs[0], "tree_leafset_bitmask") if cs else None
-        ok = v is not None and norm(v) in ("self.seed_node.edge.bipartition._leafset_bitmask", "self.seed_node.edge.bipartition.leafset_bitmask",
-                                           "self._seed_node.edge.bipartition._leafset_bitmask", "self.seed_node._edge.bipartition._leafset_bitmask")
-        rep.check(ok, "R01.3", fi.qualname, "tree_leafset_bitmask=%s" % (norm(v) if v is not None else None), fn_where(fi),
-                  "%s passes the seed edge's leafset mask (the tree's own leaf set)" % name,
-                  "%s passes `%s` as the tree leafset mask: normalisation must be relative to the tree's own leaf set (the seed edge's leafset mask); the namespace-wide mask differs whenever the namespace is larger than the tree or had taxa removed"
-                  % (fi.qualname, norm(v) if v is not None else None))
-    # other normalize_bitmask call sites
-    for fi in list(index.functions.values()):
-        if fi.qualname == csb.qualname:
-            continue
-        for c in calls_in(fi.node):
-            if call_name(c) != "normalize_bitmask" or not isinstance(c.func, ast.Attribute) or "Bipartition" not in norm(c.func.value):
-                continue
-            lrb = get_kwarg(c, "lowest_relevant_bit")
-            fill = get_kwarg(c, "fill_bitmask")
-            lit = lrb is None or isinstance(lrb, ast.Constant)
-            rep.check(not lit, "R01.3", fi.qualname, "normalize_bitmask(fill=%s, lowest_relevant_bit=%s)" % (norm(fill) if fill is not None else None, norm(lrb) if lrb is not None else "<default 1>"),
-                      fn_where(fi, c), "%s normalises relative to a tree's own lowest bit" % fi.qualname,
-                      "%s normalises a split with the literal lowest bit %s and fill `%s`: it disagrees with the trees' own normalisation whenever bit 0 is not on the tree (namespace whose first taxon was removed)"
-                      % (fi.qualname, norm(lrb) if lrb is not None else "1 (default)", norm(fill) if fill is not None else None))
+            for c in calls_in(fi.node):
+                if call_name(c) != "normalize_bitmask" or not isinstance(c.func, ast.Attribute) or "Bipartition" not in norm(c.func.value):
+                    continue
+                lrb = get_kwarg(c, "lowest_relevant_bit")
+                fill = get_kwarg(c, "fill_bitmask")
+                lit = lrb is None or isinstance(lrb, ast.Constant)
+                rep.check(not lit, "R01.3", fi.qualname, "normalize_bitmask(fill=%s, lowest_relevant_bit=%s)" % (norm(fill) if fill is not None else None, norm(lrb) if lrb is not None else "<default 1>"),
+                          fn_where(fi, c), "%s normalises relative to a tree's own lowest bit" % fi.qualname,
+                          "%s normalises a split with the literal lowest bit %s and fill `%s`: it disagrees with the trees' own normalisation whenever bit 0 is not on the tree (namespace whose first taxon was removed)"
+                          % (fi.qualname, norm(lrb) if lrb is not None else "1 (default)", norm(fill) if fill is not None else None))
 
     # ---- R01.4
-    for name, allowed in (("__hash__", {"_split_bitmask", "is_mutable"}), ("__eq__", {"_split_bitmask"})):
-        fi = index.function(BIP + "." + name)
-        reads = {a for a, b, _ in attr_reads(fi.node) if isinstance(b, ast.Name) and b.id in ("self", "other")}
-        ok = reads <= allowed and "_split_bitmask" in reads
-        rep.check(ok, "R01.4", fi.qualname, "reads %s" % sorted(reads), fn_where(fi), "Bipartition.%s reads %s" % (name, sorted(reads)),
-                  "Bipartition.%s depends on %s: identity must be the split bitmask alone (two edges inducing the same split must be equal and hash alike)" % (name, sorted(reads - allowed) or "nothing"))
+    with rep.section("R01.4"):
+        for name, allowed in (("__hash__", {"_split_bitmask", "is_mutable"}), ("__eq__", {"_split_bitmask"})):
+            fi = index.function(BIP + "." + name)
+            reads = {a for a, b, _ in attr_reads(fi.node) if isinstance(b, ast.Name) and b.id in ("self", "other")}
+            ok = reads <= allowed and "_split_bitmask" in reads
+            rep.check(ok, "R01.4", fi.qualname, "reads %s" % sorted(reads), fn_where(fi), "Bipartition.%s reads %s" % (name, sorted(reads)),
+                      "Bipartition.%s depends on %s: identity must be the split bitmask alone (two edges inducing the same split must be equal and hash alike)" % (name, sorted(reads - allowed) or "nothing"))
 
     # ---- R01.5
-    cfg = cfg_of(enc)
-    for attr in ("_split_bitmask_edge_map", "_bipartition_edge_map"):
-        resets = [n for n in cfg.nodes if n.kind == "stmt" and isinstance(n.ast, ast.Assign) and norm(n.ast.targets[0]) == "self." + attr and is_none(n.ast.value)]
-        ids = {n.id for n in resets}
-        ok = bool(resets) and cfg.dominated_by(cfg.exit, lambda n: n.id in ids, follow_exc=False)
-        rep.check(ok, "R01.5", enc.qualname, "reset of " + attr, fn_where(enc), "encode_bipartitions: self.%s = None dominates every exit" % attr,
-                  "encode_bipartitions can return without resetting the cached `%s`: distances and lookups after a re-encode use edges of the previous structure" % attr)
-    sets = [n for n in cfg.nodes if n.kind == "stmt" and isinstance(n.ast, ast.Assign) and norm(n.ast.targets[0]) == "self.bipartition_encoding"]
-    seed_names = {"self.seed_node", "self._seed_node"} | {norm(n.targets[0]) for n in walk_no_nested(enc.node) if isinstance(n, ast.Assign) and norm(n.value) in ("self.seed_node", "self._seed_node")}
-    ids = {n.id for n in sets}
-    w = cfg.can_reach(cfg.entry, lambda n: n is cfg.exit, avoid=lambda n: n.id in ids, follow_exc=False,
-                      edge_ok=lambda s, l, d: not (s.kind == "test" and norm(s.ast) in seed_names and l == "f"))
-    rep.check(w is None and bool(sets), "R01.5", enc.qualname, "bipartition_encoding assigned", fn_where(enc), "every completing path (seed node present) assigns self.bipartition_encoding",
-              "encode_bipartitions has a completing path that never assigns self.bipartition_encoding: the encoding list of the previous structure stays in place")
-    # who writes the lazy maps
-    nmw = 0
-    for fi in list(index.functions.values()):
-        for w_ in writes_in(fi.node):
-            if w_.attr in ("_split_bitmask_edge_map", "_bipartition_edge_map"):
-                nmw += 1
-                ok = fi.cls is not None and index.is_subclass(fi.cls, TREE) and fi.name in MAP_WRITERS
-                rep.check(ok, "R01.5", fi.qualname, "write to " + w_.attr, fn_where(fi, w_.stmt), "%s writes %s" % (fi.qualname, w_.attr),
-                          "%s writes the lazily built edge map `%s` outside the encoding functions" % (fi.qualname, w_.attr))
-    rep.floor("R01.5", "writes to the cached edge maps", 6, nmw)
-    g = index.function(TREE + "._get_bipartition_edge_map")
-    fills = [w_ for w_ in writes_in(g.node) if w_.kind == "substore"]
-    loops_ = {id(l) for l in walk_no_nested(g.node) if isinstance(l, ast.For)}
-    both = {w_.attr for w_ in fills} == {"_bipartition_edge_map", "_split_bitmask_edge_map"}
-    rep.check(both, "R01.5", g.qualname, "both maps filled together", fn_where(g), "the bipartition->edge and split->edge maps are rebuilt in the same pass",
-              "_get_bipartition_edge_map no longer fills both edge maps in the same pass: one of them keeps entries of an earlier encoding")
-    gl = [l for l in walk_no_nested(g.node) if isinstance(l, ast.For)]
-    ev = norm(gl[0].target) if gl else "edge"
-    keyok = all((w_.attr == "_bipartition_edge_map" and norm(w_.node.slice) == ev + ".bipartition") or
-                (w_.attr == "_split_bitmask_edge_map" and norm(w_.node.slice) == ev + ".bipartition.split_bitmask") for w_ in fills) and \
-        all(norm(w_.value) == ev for w_ in fills)
-    rep.check(keyok, "R01.5", g.qualname, "map keys/values", fn_where(g), "maps are keyed by the edge's own bipartition / split bitmask and hold that edge",
-              "the edge maps are keyed or filled with something other than the edge's own bipartition/split bitmask")
+    with rep.section("R01.5"):
+        cfg = cfg_of(enc)
+        for attr in ("_split_bitmask_edge_map", "_bipartition_edge_map"):
+            resets = [n for n in cfg.nodes if n.kind == "stmt" and isinstance(n.ast, ast.Assign) and norm(n.ast.targets[0]) == "self." + attr and is_none(n.ast.value)]
+            ids = {n.id for n in resets}
+            ok = bool(resets) and cfg.dominated_by(cfg.exit, lambda n: n.id in ids, follow_exc=False)
+            rep.check(ok, "R01.5", enc.qualname, "reset of " + attr, fn_where(enc), "encode_bipartitions: self.%s = None dominates every exit" % attr,
+                      "encode_bipartitions can return without resetting the cached `%s`: distances and lookups after a re-encode use edges of the previous structure" % attr)
+        sets = [n for n in cfg.nodes if n.kind == "stmt" and isinstance(n.ast, ast.Assign) and norm(n.ast.targets[0]) == "self.bipartition_encoding"]
+        seed_names = {"self.seed_node", "self._seed_node"} | {norm(n.targets[0]) for n in walk_no_nested(enc.node) if isinstance(n, ast.Assign) and norm(n.value) in ("self.seed_node", "self._seed_node")}
+        ids = {n.id for n in sets}
+        w = cfg.can_reach(cfg.entry, lambda n: n is cfg.exit, avoid=lambda n: n.id in ids, follow_exc=False,
+                          edge_ok=lambda s, l, d: not (s.kind == "test" and norm(s.ast) in seed_names and l == "f"))
+        rep.check(w is None and bool(sets), "R01.5", enc.qualname, "bipartition_encoding assigned", fn_where(enc), "every completing path (seed node present) assigns self.bipartition_encoding",
+                  "encode_bipartitions has a completing path that never assigns self.bipartition_encoding: the encoding list of the previous structure stays in place")
+        # who writes the lazy maps
+        nmw = 0
+        for fi in list(index.functions.values()):
+            for w_ in writes_in(fi.node):
+                if w_.attr in ("_split_bitmask_edge_map", "_bipartition_edge_map"):
+                    nmw += 1
+                    ok = fi.cls is not None and index.is_subclass(fi.cls, TREE) and fi.name in MAP_WRITERS
+                    rep.check(ok, "R01.5", fi.qualname, "write to " + w_.attr, fn_where(fi, w_.stmt), "%s writes %s" % (fi.qualname, w_.attr),
+                              "%s writes the lazily built edge map `%s` outside the encoding functions" % (fi.qualname, w_.attr))
+        rep.floor("R01.5", "writes to the cached edge maps", 6, nmw)
+        g = index.function(TREE + "._get_bipartition_edge_map")
+        fills = [w_ for w_ in writes_in(g.node) if w_.kind == "substore"]
+        loops_ = {id(l) for l in walk_no_nested(g.node) if isinstance(l, ast.For)}
+        both = {w_.attr for w_ in fills} == {"_bipartition_edge_map", "_split_bitmask_edge_map"}
+        rep.check(both, "R01.5", g.qualname, "both maps filled together", fn_where(g), "the bipartition->edge and split->edge maps are rebuilt in the same pass",
+                  "_get_bipartition_edge_map no longer fills both edge maps in the same pass: one of them keeps entries of an earlier encoding")
+        gl = [l for l in walk_no_nested(g.node) if isinstance(l, ast.For)]
+        ev = norm(gl[0].target) if gl else "edge"
+        keyok = all((w_.attr == "_bipartition_edge_map" and norm(w_.node.slice) == ev + ".bipartition") or
+                    (w_.attr == "_split_bitmask_edge_map" and norm(w_.node.slice) == ev + ".bipartition.split_bitmask") for w_ in fills) and \
+            all(norm(w_.value) == ev for w_ in fills)
+        rep.check(keyok, "R01.5", g.qualname, "map keys/values", fn_where(g), "maps are keyed by the edge's own bipartition / split bitmask and hold that edge",
+                  "the edge maps are keyed or filled with something other than the edge's own bipartition/split bitmask")
 
     # ---- R01.7 / R01.8
-    rep.rule("R01.7", "Tree-level predicates that take is_bipartitions_updated re-encode before reading the encoding unless told not to (freshness, shared engine with R04.1)")
-    nf = c04.freshness_everywhere(index, rep, "R01.7", ["dendropy.datamodel.treemodel._tree"])
-    rep.floor("R01.7", "Tree methods using the freshness flag", 2, nf)
-    rep.rule("R01.8", "the taxon -> bit assignment is stable: the accession-index state is written only by the namespace's maintaining functions and add_taxon pairs both maps with the monotone counter (shared with R10.1-R10.3)")
-    from . import c10
-    c10.index_state_rules(index, rep, {"R10.1": "R01.8", "R10.2": "R01.8", "R10.3": "R01.8"})
+    with rep.section("R01.7 / R01.8"):
+        rep.rule("R01.7", "Tree-level predicates that take is_bipartitions_updated re-encode before reading the encoding unless told not to (freshness, shared engine with R04.1)")
+        nf = c04.freshness_everywhere(index, rep, "R01.7", ["dendropy.datamodel.treemodel._tree"])
+        rep.floor("R01.7", "Tree methods using the freshness flag", 2, nf)
+        rep.rule("R01.8", "the taxon -> bit assignment is stable: the accession-index state is written only by the namespace's maintaining functions and add_taxon pairs both maps with the monotone counter (shared with R10.1-R10.3)")
+        from . import c10
+        c10.index_state_rules(index, rep, {"R10.1": "R01.8", "R10.2": "R01.8", "R10.3": "R01.8"})
 
     # ---- R01.6
-    def arg_defs(fi, e):
-        """set of definition texts of an argument expression (locals resolved one level)."""
-        if isinstance(e, ast.Name) and e.id not in fi.all_params:
-            ds = {norm(d.value) for d in _assign_defs(fi.node, e.id) if isinstance(d, ast.Assign)}
-            return ds or {e.id}
-        return {norm(e)}
-    fi = index.function(BIP + ".is_trivial")
-    cs = [c for c in calls_in(fi.node) if call_name(c) == "is_trivial_bitmask"]
-    got = [sorted(arg_defs(fi, a)) for a in cs[0].args] if cs else None
-    want = [["self._split_bitmask"], ["self._tree_leafset_bitmask"]]
-    rep.check(got == want, "R01.6", fi.qualname, "is_trivial_bitmask(%s)" % got, fn_where(fi), "is_trivial -> is_trivial_bitmask(split mask, tree leafset mask)",
-              "%s calls is_trivial_bitmask(%s); expected (%s): the predicate is evaluated on the wrong masks" % (fi.qualname, got, want))
-    fi = index.function(BIP + ".is_compatible_with")
-    cs = [c for c in calls_in(fi.node) if call_name(c) == "is_compatible_bitmasks"]
-    got = [sorted(arg_defs(fi, a)) for a in cs[0].args] if cs else None
-    ok = got is not None and len(got) == 3 and got[0] == ["self._split_bitmask"] and set(got[1]) == {"other", "other._split_bitmask"} and got[2] == ["self._tree_leafset_bitmask"]
-    rep.check(ok, "R01.6", fi.qualname, "is_compatible_bitmasks(%s)" % got, fn_where(fi), "compatibility compares the two SPLIT masks within this tree's leaf set",
-              "is_compatible_with calls is_compatible_bitmasks(%s) rather than (self split mask, other split mask, tree leafset mask)" % got)
-    fi = index.function(BIP + ".is_leafset_nested_within")
-    ret = [n for n in walk_no_nested(fi.node) if isinstance(n, ast.Return)]
-    ok = False
-    if len(ret) == 1 and isinstance(ret[0].value, ast.Compare) and isinstance(ret[0].value.left, ast.BinOp) and isinstance(ret[0].value.left.op, ast.BitAnd):
-        cmpn = ret[0].value
-        operands = [cmpn.left.left, cmpn.left.right]
-        others = [o for o in operands if norm(o) != "self._leafset_bitmask"]
-        ok = norm(cmpn.comparators[0]) == "self._leafset_bitmask" and len(others) == 1 and isinstance(others[0], ast.Name)
-        if ok:
-            ds = {norm(d.value).replace(others[0].id, "$m") for d in _assign_defs(fi.node, others[0].id) if isinstance(d, ast.Assign)}
-            ok = "self._tree_leafset_bitmask & $m" in ds and "other._leafset_bitmask" in ds
-    rep.check(ok, "R01.6", fi.qualname, "nesting test: " + (norm(ret[0].value) if ret else "?"), fn_where(fi), "leafset nesting: (other.leafset & tree leafset) & self.leafset == self.leafset",
-              "is_leafset_nested_within no longer tests (m2 & self._leafset_bitmask) == self._leafset_bitmask on the other's LEAFSET mask restricted to this tree's leaf set")
+    with rep.section("R01.6"):
+        def arg_defs(fi, e):
+            """set of definition texts of an argument expression (locals resolved one level)."""
+            if isinstance(e, ast.Name) and e.id not in fi.all_params:
+                ds = {norm(d.value) for d in _assign_defs(fi.node, e.id) if isinstance(d, ast.Assign)}
+                return ds or {e.id}
+            return {norm(e)}
+        fi = index.function(BIP + ".is_trivial")
+        cs = [c for c in calls_in(fi.node) if call_name(c) == "is_trivial_bitmask"]
+        got = [sorted(arg_defs(fi, a)) for a in cs[0].args] if cs else None
+        want = [["self._split_bitmask"], ["self._tree_leafset_bitmask"]]
+        rep.check(got == want, "R01.6", fi.qualname, "is_trivial_bitmask(%s)" % got, fn_where(fi), "is_trivial -> is_trivial_bitmask(split mask, tree leafset mask)",
+                  "%s calls is_trivial_bitmask(%s); expected (%s): the predicate is evaluated on the wrong masks" % (fi.qualname, got, want))
+        fi = index.function(BIP + ".is_compatible_with")
+        cs = [c for c in calls_in(fi.node) if call_name(c) == "is_compatible_bitmasks"]
+        got = [sorted(arg_defs(fi, a)) for a in cs[0].args] if cs else None
+        ok = got is not None and len(got) == 3 and got[0] == ["self._split_bitmask"] and set(got[1]) == {"other", "other._split_bitmask"} and got[2] == ["self._tree_leafset_bitmask"]
+        rep.check(ok, "R01.6", fi.qualname, "is_compatible_bitmasks(%s)" % got, fn_where(fi), "compatibility compares the two SPLIT masks within this tree's leaf set",
+                  "is_compatible_with calls is_compatible_bitmasks(%s) rather than (self split mask, other split mask, tree leafset mask)" % got)
+        fi = index.function(BIP + ".is_leafset_nested_within")
+        ret = [n for n in walk_no_nested(fi.node) if isinstance(n, ast.Return)]
+        ok = False
+        if len(ret) == 1 and isinstance(ret[0].value, ast.Compare) and isinstance(ret[0].value.left, ast.BinOp) and isinstance(ret[0].value.left.op, ast.BitAnd):
+            cmpn = ret[0].value
+            operands = [cmpn.left.left, cmpn.left.right]
+            others = [o for o in operands if norm(o) != "self._leafset_bitmask"]
+            ok = norm(cmpn.comparators[0]) == "self._leafset_bitmask" and len(others) == 1 and isinstance(others[0], ast.Name)
+            if ok:
+                ds = {norm(d.value).replace(others[0].id, "$m") for d in _assign_defs(fi.node, others[0].id) if isinstance(d, ast.Assign)}
+                ok = "self._tree_leafset_bitmask & $m" in ds and "other._leafset_bitmask" in ds
+        rep.check(ok, "R01.6", fi.qualname, "nesting test: " + (norm(ret[0].value) if ret else "?"), fn_where(fi), "leafset nesting: (other.leafset & tree leafset) & self.leafset == self.leafset",
+                  "is_leafset_nested_within no longer tests (m2 & self._leafset_bitmask) == self._leafset_bitmask on the other's LEAFSET mask restricted to this tree's leaf set")
